@@ -299,10 +299,13 @@ impl Lane for C12 {
         }
         let h = draw_h(rng, &d);
         let nconf = match tier {
-            Tier::Quick => 5,
-            Tier::Thorough => 10,
+            Tier::Quick => 6,
+            Tier::Thorough => 12,
         };
-        let mut confs = vec![Conf { cpu: Some(1), sched: draw_sched(rng, n), trace: None }];
+        let mut confs = vec![
+            Conf { cpu: Some(1), sched: draw_sched(rng, n), trace: None },
+            Conf { cpu: Some(2 + rng.below(3)), sched: draw_sched(rng, n), trace: None },
+        ];
         while confs.len() < nconf {
             confs.push(Conf { cpu: draw_cpu(rng, n), sched: draw_sched(rng, n), trace: None });
         }
